@@ -45,9 +45,14 @@ def out_term(o):
     return f"(RetInt {cN(o)})"
 
 
-def impl_tool(tool, vm_strs, nets, rng):
+USER_PARAMS = {"unset": [{"unset_mode": "fa"}, {"unset_mode": "ra"}], "get": [{"get_mode": "ia"}, {"get_mode": "ra"}],
+               "set": [{"set_mode": "fa"}, {"set_mode": "af"}], "check": [{"check_mode": "rr"}], "push": [{"push_mode": "ff"}],
+               "pop": [{"pop_mode": "ra"}], "clean": [{"custom_flag": "on"}], "boot": [{"custom_flag": "on"}], "shutdown": [{"custom_flag": "on"}]}
+
+
+def impl_tool(tool, vm_strs, nets, rng, extra=None):
     from avocado_i2n import intertest_setup
-    config = toolseam.base_config(vm_strs, nets)
+    config = toolseam.base_config(vm_strs, nets, extra=extra)
     with toolseam.Recorder(rng) as rec:
         try:
             ret = getattr(intertest_setup, tool)(config, tag="0m0")
@@ -101,13 +106,24 @@ def run(ctx, replay=None):
         runs += [(t, ["vm1", "vm3"], "net1 net2") for t in PER_VM_TOOLS + PER_WORKER_TOOLS if t not in have]
     terms, obs_all = [], []
     for tool, sel, nets in runs:
-        ret, calls = impl_tool(tool, {v: all_vms[v] for v in sel}, nets, rng)
+        extra = rng.choice(USER_PARAMS[tool]) if rng.random() < 0.6 else None
+        ret, calls = impl_tool(tool, {v: all_vms[v] for v in sel}, nets, rng, extra)
         per_vm = tool in PER_VM_TOOLS
         obs, wrong = [], []
         for c in calls:
             if c[0] != "run":
                 continue
             p = c[3]
+            # the step's (user given) parameters must be what each selected vm and its images effectively get
+            if extra:
+                from virttest.utils_params import Params
+                pp = Params(p)
+                for vm in pp.objects("vms"):
+                    vmp = pp.object_params(vm)
+                    views = [vmp.object_params("vms")] + [vmp.object_params(img).object_params("images") for img in vmp.objects("images")]
+                    for k, v in extra.items():
+                        if any(view.get(k) != v for view in views):
+                            wrong.append(f"user parameter {k}={v} is not what {vm} effectively gets: {[view.get(k) for view in views]}")
             if p.get("nets") != c[1]:
                 wrong.append(f"node of {p.get('nets')} run by {c[1]}")
             if per_vm and p.get("vm_action") != ACTION.get(tool, tool):
